@@ -3,6 +3,7 @@ pub mod c01_carriers;
 pub mod c03;
 pub mod c11;
 pub mod c15;
+pub mod c19;
 
 use crate::runner::{Report, Tier};
 use serde_json::Value;
@@ -22,5 +23,6 @@ pub fn registry() -> Vec<(&'static str, CheckFn)> {
         ("C03", c03::run as CheckFn),
         ("C11", c11::run as CheckFn),
         ("C15", c15::run as CheckFn),
+        ("C19", c19::run as CheckFn),
     ]
 }
